@@ -425,3 +425,24 @@ func TestVerifKF_C15_quote_in_comment(t *testing.T) {
 	}
 	verifkit.KnownFinding(kfC15QuoteInComment, rep, "a quote inside a comment opens a literal for the masker but not for DuckDB")
 }
+
+// Native fuzz target (thorough tier): byte-level search for a round-trip failure.
+func FuzzVerifC15RoundTrip(f *testing.F) {
+	for _, s := range []string{"SELECT 'a' AS \"b\"", "$$x$$ $t$y$t$", "E'a\\'b' -- c\n/* d */", "'' \"\" $1 e'", "'a''b' \"c\"\"d\""} {
+		f.Add(s)
+	}
+	noLook := verifkit.Excluded(kfC15Lookalike)
+	f.Fuzz(func(t *testing.T, s string) {
+		if noLook && (strings.Contains(s, "__STR_") || strings.Contains(s, "__IDENT_")) {
+			return
+		}
+		masked, masks := MaskStringLiterals(s, HasQuotes(s))
+		if back := UnmaskStringLiterals(masked, masks); back != s {
+			t.Fatalf("VERIF-FAIL class=C15/roundtrip input=%q masked=%q back=%q", s, masked, back)
+		}
+		fm, fmasks := MaskFromKeywordsInFunctionBodies(masked)
+		if back := UnmaskFromKeywordsInFunctionBodies(fm, fmasks); back != masked {
+			t.Fatalf("VERIF-FAIL class=C15/from-roundtrip input=%q masked=%q back=%q", masked, fm, back)
+		}
+	})
+}
